@@ -10,7 +10,8 @@ RULE = ('case = parametrised input family F(n): (nest) a wrapper recipe - 1..4 w
         'value, dict with tuple key, frozenset, SimpleNamespace arg, pretty_call arg, list subclass, OrderedDict, comment, '
         'trailing comment} applied cyclically n times to a leaf (int, word string, empty string, long string); (wide) n '
         'siblings of a small nested shape in a list / dict / tuple / set; (str) strings of n words / n unbreakable chars / '
-        'n escapes, str and bytes, at a fixed width, top level and nested. Fixed families from the statement and every ordered pair/triple (up to rotation) over {list, dict value, tuple, '
+        'n escapes, str and bytes, at a fixed width, top level and nested; (ring) a cycle of n dicts / lists whose '
+        'back-reference is plain or commented. Fixed families from the statement and every ordered pair/triple (up to rotation) over {list, dict value, tuple, '
         'call, comment, trailing comment} are enumerated; '
         'recipes are drawn by Hypothesis. Oracle: steps(x) = sys.monitoring LINE events inside the package during one '
         'pformat; for n = n0, 2n0, 4n0, 8n0 (n0 = 8 nesting / 50 length) require steps(2n) / steps(n) <= 12; every run is '
@@ -91,6 +92,23 @@ def build_family(case, n):
             return set(range(n))
         if c == 'counter':
             return collections.Counter({i: i for i in range(n)})
+    if k == 'ring':
+        # a cycle of n containers (finite value!): node i refers to node i+1, the last one back to the first
+        from prettyprinter import comment
+        nodes = [{} if case['node'] == 'dict' else [] for _ in range(n)]
+        for i, node in enumerate(nodes):
+            nxt = nodes[(i + 1) % n]
+            if case['commented']:
+                nxt = comment(nxt, 'next of %d, with enough words to be put above the value' % i)
+            if isinstance(node, dict):
+                node['next'] = nxt
+                if case['extra']:
+                    node['again'] = nodes[(i + 1) % n]
+            else:
+                node.append(nxt)
+                if case['extra']:
+                    node.append(nodes[(i + 1) % n])
+        return nodes[0]
     if k == 'str':
         s = {'words': 'word ' * n, 'unbreakable': 'x' * n, 'escapes': '\n\'"\\' * n, 'nonword': 'ab-cd/' * n,
              'spaces': ' ' * n}[case['text']]
@@ -105,6 +123,8 @@ def build_family(case, n):
 
 def d19(case):
     """a comment sits on a dict value at two or more nesting levels"""
+    if case['kind'] == 'ring':
+        return case['node'] == 'dict' and case['commented']     # a ring of dicts with commented values nests them n deep
     if case['kind'] != 'nest':
         return False
     # trailing comments are transparent here: comment(trailing_comment(x)) as a dict value is still a commented value
@@ -113,7 +133,7 @@ def d19(case):
 
 
 def n0_of(case):
-    return 8 if case['kind'] == 'nest' else 50
+    return 8 if case['kind'] in ('nest', 'ring') else 50
 
 
 def enumerate_cases(tier):
@@ -146,6 +166,12 @@ def enumerate_cases(tier):
             for around in ([], ['list'], ['dictval', 'list', 'list', 'list', 'list', 'list', 'list', 'list', 'list', 'list', 'list', 'list', 'list', 'list', 'list', 'list', 'list', 'list', 'list', 'list', 'list']):
                 for width in ((79,) if tier == 'quick' else (79, 20, 1)):
                     yield {'kind': 'str', 'text': text, 'bytes': b, 'around': around, 'width': width}
+    # cyclic values are finite values too: rings of n containers, back-reference plain or commented
+    for node in ('dict', 'list'):
+        for commented in (False, True):
+            for extra in (False,):
+                for width in (79, 20):
+                    yield {'kind': 'ring', 'node': node, 'commented': commented, 'extra': extra, 'width': width}
     # known finding D19: the witness family
     yield {'kind': 'nest', 'wrappers': ['comment', 'dictval'], 'leaf': ['int', 1], 'width': w, 'witness': 'D19'}
 
@@ -179,7 +205,7 @@ def measure_points(case, points):
         except RecursionError:
             out.append((n, None, 'recursion-building'))
             break
-        cap = (FIRST_CAP if case['kind'] == 'nest' else 8 * FIRST_CAP) if prev is None else B * prev + 10 ** 4
+        cap = (FIRST_CAP if case['kind'] in ('nest', 'ring') else 8 * FIRST_CAP) if prev is None else B * prev + 10 ** 4
         try:
             cnt, res, exceeded = steps.measure(lambda: values.pp(v, guard=False, width=case['width'], ribbon_width=case['width']), cap=cap)
         except RecursionError:
